@@ -845,6 +845,9 @@ class NAryMatrixRelation(AbstractBaseRelation, SimpleRepr):
         if isinstance(var_values, list):
             _, s = self._slice_matrix([v.name for v in self._variables], var_values)
             matrix = np.copy(self._m)
+            if not np.can_cast(np.result_type(matrix.dtype, rel_value), matrix.dtype):
+                # e.g. a float set in an integer matrix must not be truncated
+                matrix = matrix.astype(np.result_type(matrix.dtype, rel_value))
             matrix[s] = rel_value
             return NAryMatrixRelation(self._variables, matrix, name=self.name)
 
@@ -854,6 +857,9 @@ class NAryMatrixRelation(AbstractBaseRelation, SimpleRepr):
                 values.append(var_values[v.name])
             _, s = self._slice_matrix([v.name for v in self._variables], values)
             matrix = np.copy(self._m)
+            if not np.can_cast(np.result_type(matrix.dtype, rel_value), matrix.dtype):
+                # e.g. a float set in an integer matrix must not be truncated
+                matrix = matrix.astype(np.result_type(matrix.dtype, rel_value))
             matrix[s] = rel_value
             return NAryMatrixRelation(self._variables, matrix, name=self.name)
         raise ValueError("Could not set value, must be list or dict")
